@@ -9,7 +9,7 @@ import os
 import random
 import sys
 
-REPO = os.environ.get('VERIF_REPO', '/repo')
+REPO = (os.environ.get('VERIF_REPO') or '/repo')
 
 
 def load_impl():
